@@ -246,6 +246,13 @@ func init() {
 			// shutdown with acknowledged messages still in the routing queue
 			return &sessCase{Stalled: 11}
 		}
+		if i%30 == 7 {
+			// what a shutdown hands to persistence is what the NEXT shutdown has to hand over again, unchanged, when the
+			// session stays away: two shutdowns and restarts in a row
+			c := &sessCase{Preempt: true}
+			doubleRestart(r, c)
+			return c
+		}
 		if i%30 == 29 {
 			// the whole server: listeners, established connections and connections still in their handshake
 			lc := &lisCase{}
